@@ -227,6 +227,11 @@ func verifJSONUnmarshal(data []byte, v interface{}) error {
 		}
 		return nil
 	}
+	// under the executor the harnesses use the two bytes "{}" to stand for "a JSON document"; any
+	// other input (nothing at all, stray bytes after the version line) is not JSON
+	if len(data) != 2 || data[0] != '{' || data[1] != '}' {
+		return verifErrJSON
+	}
 	if verifapi.Bool("json.err") {
 		return verifErrJSON
 	}
